@@ -219,7 +219,9 @@ func (w *World) Sleep(d time.Duration) {
 
 func (w *World) yield(site string) {
 	if w.stopping {
-		// the run is over: never park again, let goroutines run to their natural block/exit
+		// the run is over: never park again, let goroutines run to their natural block/exit.
+		// A tiny sleep (fake clock) keeps polling loops from pinning the bubble: time can still advance.
+		time.Sleep(time.Microsecond)
 		return
 	}
 	gid := goid()
